@@ -265,7 +265,7 @@ def rule_c(ctx, out):
         else:
             out.bad(f"bounds-class-incomplete:{ci.name}", "bounds class lacks first/last_position_sequence", where(ci.module))
     # decoded theta -> instruction id uses the factory's own theta table
-    if "theta_to_instr" in norm(rb.node):
+    if any("theta_to_instr" in norm(h.node) for h in ctx.with_helpers(rb)):
         out.ok({"decode": "theta value -> instruction through the factory's table"})
     else:
         out.bad("model-reader-decode", "decoding does not use the instruction factory's theta table", where(rb))
@@ -435,9 +435,42 @@ def _max_offset(body_nodes, var):
 
 def _range_loops(f):
     """(loop variable, range call, body nodes) for `for v in range(..)` statements and comprehension generators of f"""
+    # a local that only ever holds range(..) objects stands for each of them:  positions = range(..) ... for j in positions
+    # and a function chosen next to the range (same statement list:  constraint = sto_ld_dependency) is read as that function in the body
+    held = {}
+    for n in own_nodes(f.node):
+        if isinstance(n, ast.Assign) and len(n.targets) == 1 and isinstance(n.targets[0], ast.Name):
+            is_rng = isinstance(n.value, ast.Call) and call_name(n.value) == "range"
+            held.setdefault(n.targets[0].id, []).append(n if is_rng else None)
+
+    def specialised(body, assign):
+        par = getattr(assign, "_parent", None)
+        sibs = next((v for _, v in ast.iter_fields(par) if isinstance(v, list) and assign in v), []) if par is not None else []
+        alias = {x.targets[0].id: x.value.id for x in sibs if isinstance(x, ast.Assign) and len(x.targets) == 1 and isinstance(x.targets[0], ast.Name)
+                 and isinstance(x.value, ast.Name)}
+        if not alias:
+            return body
+        out = []
+        for st in body:
+            cp = ast.parse(ast.unparse(st)).body[0]
+            for x in ast.walk(cp):
+                if isinstance(x, ast.Name) and isinstance(x.ctx, ast.Load) and x.id in alias:
+                    x.id = alias[x.id]
+                for ch in ast.iter_child_nodes(x):
+                    ch._parent = x
+            ast.copy_location(cp, st)
+            for x in ast.walk(cp):
+                if not hasattr(x, "lineno"):
+                    continue
+                x.lineno = x.lineno + st.lineno - 1
+            out.append(cp)
+        return out
     for n in own_nodes(f.node):
         if isinstance(n, ast.For) and isinstance(n.target, ast.Name) and isinstance(n.iter, ast.Call) and call_name(n.iter) == "range":
             yield n.target.id, n.iter, n.body
+        elif isinstance(n, ast.For) and isinstance(n.target, ast.Name) and isinstance(n.iter, ast.Name) and held.get(n.iter.id) and all(held[n.iter.id]):
+            for a in held[n.iter.id]:
+                yield n.target.id, a.value, specialised(n.body, a)
         elif isinstance(n, (ast.ListComp, ast.GeneratorExp, ast.SetComp)):
             for gi, g in enumerate(n.generators):
                 if isinstance(g.target, ast.Name) and isinstance(g.iter, ast.Call) and call_name(g.iter) == "range":
